@@ -54,7 +54,11 @@ Prefixes ==
       <<T("SetWithMeta", [A0 EXCEPT !.sets = S1])>>,                                          \* SetWithMeta without a body
       <<T("Set", WithBody(A0, "J1")), T("Delete", A0), T("Add", WithBody(A0, "J2"))>>,        \* deleted and re-created
       <<T("Set", WithBody(A0, "J2")), T("UpdateXattrDeleteBody", [A0 EXCEPT !.casc = "cur", !.sets = S1])>>,  \* body removed by an xattr write
-      <<T("WriteCas", WithBody([A0 EXCEPT !.opt = "addonly", !.exp = "E1"], "J1")), T("Remove", [A0 EXCEPT !.casc = "cur"])>> }
+      <<T("WriteCas", WithBody([A0 EXCEPT !.opt = "addonly", !.exp = "E1"], "J1")), T("Remove", [A0 EXCEPT !.casc = "cur"])>>,
+      <<T("SetRaw", WithBody(A0, "R0"))>>,                                                    \* live, a body of no bytes
+      <<T("WriteTombstoneWithXattrs", [A0 EXCEPT !.sets = S1, !.exp = "E1"])>>,               \* tombstone with an expiry
+      <<T("WriteWithXattrs", WithBody([A0 EXCEPT !.sets = SU], "J2")),
+        T("UpdateXattrDeleteBody", [A0 EXCEPT !.casc = "cur", !.sets = S1, !.exp = "E1"])>> }  \* body removed, expiry given
 
 Probes ==
     { T("Add", WithBody(A0, "J2")),
@@ -78,6 +82,7 @@ Corners(op) ==
     THEN {a \in ArgsFor(op) : a.sets = NoSets /\ a.dels = NoDels /\ a.exp = "0" /\ ~a.pres /\ a.casc \in {"zero", "cur"}
                                /\ a.newc \in {"hi", "btw"}}
          \cup {a \in ArgsFor(op) : a.opt = "emptyx" /\ a.newc = "hi"}
+         \cup {a \in ArgsFor(op) : a.casc = "sibkey" \/ a.newc = "sib"}
     ELSE {}
 Sample(op) == IF Cardinality(ArgsFor(op)) <= Cap THEN ArgsFor(op) ELSE RandomSubset(Cap, ArgsFor(op)) \cup Corners(op)
 
@@ -85,7 +90,10 @@ CoverNext ==
     /\ hist = <<>>
     /\ \E pre \in Prefixes, op \in OpSet :
          \E a \in Sample(op) :
-            /\ hist' = (IF RandomElement(1..3) = 1 THEN Neighbours ELSE <<>>) \o pre \o <<T(op, a)>> \o <<RandomElement(Probes)>>
+            \* (an instance that refers to a neighbouring document needs the neighbours; a copy that keeps the CAS of the
+            \*  same key elsewhere is followed by a write conditional on exactly that CAS)
+            /\ hist' = (IF a.newc = "sib" \/ a.casc = "sibkey" \/ RandomElement(1..3) = 1 THEN Neighbours ELSE <<>>) \o pre \o <<T(op, a)>>
+                        \o <<IF a.newc = "sib" THEN T("WriteCas", WithBody([A0 EXCEPT !.casc = "cur"], "J1")) ELSE RandomElement(Probes)>>
             /\ PrintT(<<"BEHAVIOUR", ToJson(hist')>>)
     /\ UNCHANGED vars
 CoverInit == Init /\ hist = <<>>
